@@ -114,6 +114,8 @@ int splinetable_write_key(struct splinetable* table, splinetable_dtype type,
 			case SPLINETABLE_DOUBLE:
 				real_table.write_key(key,*static_cast<const double*>(value));
 				break;
+			default:
+				return(1);
 		}
 	}catch(std::exception& ex){
 		fprintf(stderr,"%s\n",ex.what());
